@@ -128,6 +128,8 @@ Handle ==
             /\ UNCHANGED bad
        ELSE /\ bad' = bad \cup (IF Cur.kind # "reject" /\ Cur.rx_alloc > Ceil(cfg.alloc[e]) THEN Flag("C06", "receive-allocation-over-limit") ELSE {})
                          \cup (IF Cur.kind # "reject" /\ cfg.honest /\ Cur.rx_alloc > outAlloc[Other(e)] THEN Flag("C06", "receiver-charges-more-than-the-sender-has-outstanding") ELSE {})
+                         \* the bytes really held (reassembly buffers + complete undelivered packets), whatever the receiver's own counter says
+                         \cup (IF "rx_held" \in DOMAIN Cur /\ Cur.rx_held > Ceil(cfg.alloc[e]) THEN Flag("C06", "received-packet-data-held-exceeds-max-receive-alloc") ELSE {})
             /\ UNCHANGED <<open, unacked, outCount, outAlloc>>
     /\ UNCHANGED <<sub, begun, tsFresh, tsMaybe, maybeSum, certainSum, cfg, nprobe>>
 
